@@ -70,7 +70,7 @@ class Ctx:
         return VH
 
     # ------------------------------------------------------------------ TLC
-    def tlc(self, module, cfg, workers=None, timeout=600, env=None, simulate=None, coverage=False,
+    def tlc(self, module, cfg, workers=None, timeout=600, env=None, simulate=None, depth=30, coverage=False,
             dfs=False, heap="6g", expect_violation=False, name=None, quiet=False):
         """Runs TLC on specs/<module>.tla with specs/<cfg>.  Returns TlcOut.  Any TLC error other than an
         invariant/property violation raises ToolError."""
@@ -92,7 +92,7 @@ class Ctx:
         if coverage:
             cmd += ["-coverage", "1"]
         if simulate:
-            cmd += ["-simulate", simulate, "-seed", str(self.seed)]
+            cmd += ["-simulate", simulate, "-seed", str(self.seed), "-depth", str(depth)]
         cmd += [module + ".tla"]
         t = time.time()
         outp = os.path.join(self.work, "tlc-" + name + ".out")
